@@ -2,7 +2,12 @@
    extracted Coq model (Model/Semirings.v).  See the harness file for the case syntax.
    FiniteField runs in both build modes of the model (Checked = overflow panics, Wrapping);
    a panic of the Checked model prints PANIC (the harness is built with overflow checks), a
-   difference between the two modes prints MODE-DIFF. *)
+   difference between the two modes prints MODE-DIFF.
+   FiniteField<P> runs for the exported primes, 2,3,5,7,11 and the further moduli [extra_moduli]
+   (the Rust type is generic in P; each must satisfy ff_okb, the side condition of
+   C13_ff_any_modulus).  The wide-magnitude cases realw/cxw/euw write dyadic operands as
+   <m>p<e> = m * 2^e and carry a 0/1 mask: only the battery entries marked 1 are printed, in
+   the same m p e form (m odd), the others as ~. *)
 
 exception Panic
 
@@ -30,12 +35,42 @@ let qc_of_string (s : string) : qc =
 
 let string_of_qc (x : qc) : string = string_of_z x.qnum ^ "/" ^ string_of_n (Npos x.qden)
 let string_of_pair (a, b) = string_of_qc a ^ "," ^ string_of_qc b
+
+(* dyadic notation "<m>p<e>" = m * 2^e *)
+let rec pos_shift p k = if k <= 0 then p else pos_shift (XO p) (k - 1)
+let rec pos_odd_part p k = match p with XO q -> pos_odd_part q (k + 1) | _ -> (p, k)
+let qc_of_dy (s : string) : qc =
+  match String.split_on_char 'p' s with
+  | [m; e] ->
+    let e = int_of_string e in
+    let num = match z_of_string m with
+      | Z0 -> Z0 | Zpos p -> Zpos (pos_shift p e) | Zneg p -> Zneg (pos_shift p e) in
+    q2Qc { qnum = num; qden = pos_shift XH (- e) }
+  | _ -> failwith "bad dyadic"
+(* a reduced fraction whose denominator is a power of two, as <odd m>p<e>; anything else as n/d *)
+let dy_of_qc (x : qc) : string =
+  match pos_odd_part x.qden 0 with
+  | (XH, k) ->
+    (match x.qnum with
+     | Z0 -> "0p0"
+     | Zpos p -> let (o, t) = pos_odd_part p 0 in string_of_n (Npos o) ^ "p" ^ string_of_int (t - k)
+     | Zneg p -> let (o, t) = pos_odd_part p 0 in "-" ^ string_of_n (Npos o) ^ "p" ^ string_of_int (t - k))
+  | _ -> string_of_qc x
+let dy_of_pair (a, b) = dy_of_qc a ^ "," ^ dy_of_qc b
+let masked (mask : string) (l : string list) : string =
+  if String.length mask <> List.length l then "BADMASK"
+  else String.concat " " (List.mapi (fun i s -> if mask.[i] = '1' then s else "~") l)
 let b01 b = if b then "1" else "0"
 
 let rec n_mem x = function [] -> false | y :: t -> (string_of_n x = string_of_n y) || n_mem x t
 
 (* --- FiniteField --- *)
 let small_primes = List.map n_of_int [2; 3; 5; 7; 11]
+(* 2^61-1, 2^89-1, 2^96+61, 2^107-1, 2^127-1, 2^127-3 (composite), 2^127 *)
+let extra_moduli = List.map n_of_string
+  [ "2305843009213693951"; "618970019642690137449562111"; "79228162514264337593543950397";
+    "162259276829213363391578010288127"; "170141183460469231731687303715884105727";
+    "170141183460469231731687303715884105725"; "170141183460469231731687303715884105728" ]
 
 let ff_battery (m : mode) (p : n) (a : n) (b : n) (c : n) : string =
   let add x y = get (ff_add m p x y) and mul x y = get (ff_mul m p x y)
@@ -49,7 +84,7 @@ let ff_battery (m : mode) (p : n) (a : n) (b : n) (c : n) : string =
   String.concat " " (List.map string_of_n r)
 
 let ff_case p a b c =
-  if not (n_mem p exported_primes || n_mem p small_primes) then "BADP"
+  if not (n_mem p exported_primes || n_mem p small_primes || n_mem p extra_moduli) then "BADP"
   else if not (ff_okb p) then "NOT-OK-MODULUS"
   else
     let run m = try ff_battery m p a b c with Panic -> "PANIC" in
@@ -57,11 +92,9 @@ let ff_case p a b c =
     if rc = rw then rc else if rc = "PANIC" then "PANIC" else "MODE-DIFF"
 
 (* --- generic battery pieces --- *)
-let real_case a b c =
+let real_list s a b c =
   let o = real_ops in
   let ( +! ) = o.sr_add and ( *! ) = o.sr_mul in
-  let s = string_of_qc in
-  String.concat " "
     [ s (a +! b); s (a *! b); s (real_sub a b); s ((a +! b) +! c); s (a +! (b +! c));
       s ((a *! b) *! c); s (a *! (b *! c)); s (a *! (b +! c)); s ((a *! b) +! (a *! c));
       s o.sr_one; s o.sr_zero; s (real_join a b); s (real_meet a b); s (real_choose a b);
@@ -70,24 +103,23 @@ let real_case a b c =
       s (real_meet (real_meet a b) c); s (real_meet a (real_meet b c));
       s (real_sub (a +! b) b); s (b *! a); s (a *! o.sr_one); s (a +! o.sr_zero);
       s (a *! o.sr_zero) ]
+let real_case a b c = String.concat " " (real_list string_of_qc a b c)
 
-let cx_case a b c =
+let cx_list s wide a b c =
   let o = cx_ops in
   let ( +! ) = o.sr_add and ( *! ) = o.sr_mul in
-  let s = string_of_pair in
-  String.concat " "
     [ s (a +! b); s (a *! b); s (cx_sub a b); s ((a +! b) +! c); s (a +! (b +! c));
       s ((a *! b) *! c); s (a *! (b *! c)); s (a *! (b +! c)); s ((a *! b) +! (a *! c));
       s o.sr_one; s o.sr_zero; s (b *! a); s (a *! o.sr_one); s (a +! o.sr_zero);
       s (a *! o.sr_zero); s (cx_sub (a +! b) b) ]
+    @ (if wide then [ s (o.sr_one *! a); s ((b +! c) *! a) ] else [])
+let cx_case a b c = String.concat " " (cx_list string_of_pair false a b c)
 
-let eu_case a b c =
+let eu_list s wide a b c =
   let o = eu_ops in
   let ( +! ) = o.sr_add and ( *! ) = o.sr_mul in
-  let s = string_of_pair in
   let cmp = match eu_partial_cmp a b with
     | Some Lt -> "L" | Some Gt -> "G" | Some Eq -> "E" | None -> "N" in
-  String.concat " "
     [ s (a +! b); s (a *! b); s (eu_sub a b); s ((a +! b) +! c); s (a +! (b +! c));
       s ((a *! b) *! c); s (a *! (b *! c)); s (a *! (b +! c)); s ((a *! b) +! (a *! c));
       s o.sr_one; s o.sr_zero; s (eu_join a b); s (eu_meet a b); s (eu_choose a b);
@@ -96,6 +128,8 @@ let eu_case a b c =
       s (eu_meet (eu_meet a b) c); s (eu_meet a (eu_meet b c));
       s (eu_sub (a +! b) b); s (b *! a); s (a *! o.sr_one); s (a +! o.sr_zero);
       s (a *! o.sr_zero) ]
+    @ (if wide then [ s (o.sr_one *! a); s ((b +! c) *! a) ] else [])
+let eu_case a b c = String.concat " " (eu_list string_of_pair false a b c)
 
 let rat_case a b c =
   let o = rational_ops in
@@ -158,6 +192,11 @@ let () =
              cx_case (qc_of_string a, qc_of_string b) (qc_of_string c, qc_of_string d) (qc_of_string e, qc_of_string f)
            | "eu", [a; b; c; d; e; f] ->
              eu_case (qc_of_string a, qc_of_string b) (qc_of_string c, qc_of_string d) (qc_of_string e, qc_of_string f)
+           | "realw", [m; a; b; c] -> masked m (real_list dy_of_qc (qc_of_dy a) (qc_of_dy b) (qc_of_dy c))
+           | "cxw", [m; a; b; c; d; e; f] ->
+             masked m (cx_list dy_of_pair true (qc_of_dy a, qc_of_dy b) (qc_of_dy c, qc_of_dy d) (qc_of_dy e, qc_of_dy f))
+           | "euw", [m; a; b; c; d; e; f] ->
+             masked m (eu_list dy_of_pair true (qc_of_dy a, qc_of_dy b) (qc_of_dy c, qc_of_dy d) (qc_of_dy e, qc_of_dy f))
            | "poly", "real" :: toks -> poly_case real_ops qc_of_string string_of_qc toks
            | "poly", "ff11" :: toks ->
              let p = n_of_int 11 in
